@@ -714,6 +714,46 @@ def run_server(ctx, reps):
                              "iv_hex": iv.hex()}])[0]
                 if back.get("status") != "ok" or bytes.fromhex(back["data"]["c"]) != pt:
                     ctx.report("c06:server-decrypt-not-inverse:%d" % mode, "Decrypt(Encrypt(m)) != m through the server", {"kind": "server"})
+            # a WRAPPED Get and uses of the same key in ONE batch (and after it): the wrapped key is RFC 3394 of the stored
+            # key, and every use computes with the STORED key - not with what an earlier item of the batch made of it
+            kw = rb(16)
+            W = register(kw, 3, 0x10 | 0x20)
+            pt, iv = rb(32), rb(16)
+            cp = {"mode": 1, "padding": 3, "alg": 3}
+            wrap = {"method": 1, "enckey": W, "encparams": True, "mackey": False, "attrnames": 0, "encoding": 1}
+            o = Eg.handle({"cmd": "req", "now": 1000, "id": {"user": "alice", "groups": None},
+                           "req": {"version": 14, "ts": None, "async": None, "bopt": 1, "maxsize": None, "items": [
+                               {"op": "get", "bid": "w0", "crypto": None, "uid": base, "wrap": wrap, "format": None, "compression": False},
+                               {"op": "encrypt", "bid": "w1", "crypto": None, "uid": base, "params": True, "cp": cp,
+                                "data_hex": pt.hex(), "iv_hex": iv.hex()},
+                               {"op": "create", "bid": "w2", "crypto": None, "otype": 2, "tmpl": {"tnames": 0, "attrs": [
+                                   attr("Cryptographic Algorithm", {"k": "enum", "v": 3}),
+                                   attr("Cryptographic Length", {"k": "int", "v": 128}),
+                                   attr("Cryptographic Usage Mask", {"k": "int", "v": 12})]}},
+                               {"op": "get", "bid": "w3", "crypto": None, "uid": base, "wrap": wrap, "format": None, "compression": False}]}})
+            rs = o.get("results") or []
+            count += len(rs)
+            enc = Cipher(algorithms.AES(key), modes.CBC(iv), backend=default_backend()).encryptor()
+            want_ct = enc.update(pt + bytes([16]) * 16) + enc.finalize()
+            if len(rs) == 4:
+                for k_ in (0, 3):
+                    if rs[k_].get("status") == "ok" and (rs[k_]["data"].get("value") or "") != ref_aes_wrap(kw, key).hex():
+                        ctx.report("c06:wrapped-get-differs-from-rfc3394:item-%d" % k_,
+                                   "item %d of [wrapped Get; Encrypt; Create; wrapped Get]: the wrapped key is not RFC 3394 of "
+                                   "the stored key" % k_, {"kind": "server"})
+                if rs[1].get("status") == "ok" and bytes.fromhex(rs[1]["data"]["c"]) != want_ct:
+                    ctx.report("c06:server-encrypt-differs:after-wrapped-get",
+                               "Encrypt batched after a wrapped Get of the same key differs from an independent use of the cipher "
+                               "with the registered key", {"kind": "server"})
+            res = req([{"op": "encrypt", "bid": None, "uid": base, "params": True, "cp": cp, "data_hex": pt.hex(),
+                        "iv_hex": iv.hex()}])[0]
+            count += 1
+            if res.get("status") == "ok" and bytes.fromhex(res["data"]["c"]) != want_ct:
+                ctx.report("c06:server-encrypt-differs:request-after-wrapped-get",
+                           "Encrypt in the request after a batch with a wrapped Get differs from an independent use of the "
+                           "cipher with the registered key", {"kind": "server"})
+            if (get_value(base).get("value") or "") != key.hex():
+                ctx.report("c06:stored-key-changed-by-wrapped-get", "Get no longer returns the registered key bytes", {"kind": "server"})
             # block ciphers of DIFFERENT block sizes with the same padding method, alternating on the one server
             # process: each ciphertext equals an independent use of that cipher (padding to ITS block size)
             k3 = rb(24)
